@@ -299,6 +299,7 @@ class Host(utils.EventEmitter):
         self.suggested_max_tx_octets = 251  # Max allowed
         self.suggested_max_tx_time = 2120  # Max allowed
         self.command_semaphore = asyncio.Semaphore(1)
+        self.transport_lost = False
         self.long_term_key_provider = None
         self.link_key_provider = None
         self.pairing_io_capability_provider = None  # Classic only
@@ -337,6 +338,7 @@ class Host(utils.EventEmitter):
         self.command_semaphore.release()
 
     async def reset(self, driver_factory=drivers.get_driver_for_host) -> None:
+        self.transport_lost = False
         if self.ready:
             self.ready = False
             await self.flush()
@@ -695,6 +697,9 @@ class Host(utils.EventEmitter):
             hci.HCI_Command_Complete_Event | hci.HCI_Command_Status_Event | None
         ) = None
         try:
+            if self.transport_lost:
+                # Nothing would ever answer
+                raise TransportLostError('transport lost')
             self.send_hci_packet(command)
             response = await asyncio.wait_for(
                 self.pending_response, timeout=response_timeout
@@ -1004,6 +1009,7 @@ class Host(utils.EventEmitter):
 
     def on_transport_lost(self):
         # Called by the source when the transport has been lost.
+        self.transport_lost = True
         if self.pending_response and not self.pending_response.done():
             self.pending_response.set_exception(TransportLostError('transport lost'))
 
